@@ -31,9 +31,12 @@ def match(kf, oracle, tags):
     return None
 
 
-def avoid_features(kf):
+def avoid_features(kf, prop=None):
+    """Features to avoid: those of this property's known findings (explored in a small stratum) and, prefixed
+    with '!', those of other properties' known findings (never generated here: their violations belong there)."""
     s = set()
-    for e in kf:
+    for e in load(None):
         if e["status"] == "known":
-            s.update(e.get("avoid", []))
+            for a in e.get("avoid", []):
+                s.add(a if (prop is None or e["property"] == prop) else "!" + a)
     return s
